@@ -1231,7 +1231,12 @@ def rule_fresh_per_parse(ctx: Ctx, rid="C17.FRESH-PER-PARSE", kinds=("Lexer", "P
                 ctx.rep.ok(rid, con, "constructed per call and kept local", site=m.site(node))
     # module-level names bound to instances via other spellings (e.g. `_LEXER = None` then global assignment) are covered by NO-SHARED-WRITES
     ctx.rep.floor("construction sites of lexer/parser/generator objects", n, 4 if len(kinds) == 3 else 1)
-    # parse_source itself must construct both
+    # parse_source itself must construct both: decided on two abstract calls when the interpreter can follow them
+    from . import parserules as PS
+    kinds_ = tuple(k_ for k_, n_ in (("fresh-lexer", "Lexer"), ("fresh-parser", "Parser")) if n_ in kinds)
+    if kinds_ and PS.decide(ctx, rid, kinds_, ok_text="each call of parse_source builds its own " + " and ".join(
+            k_.split("-")[1] for k_ in kinds_) + " (two abstract calls; module-level objects are single objects)"):
+        return
     wf = ctx.mod(WF)
     ps = wf.get_function("parse_source")
     made = {dotted(c.func).split(".")[-1] for c in walk_no_nested(ps) if isinstance(c, ast.Call) and dotted(c.func)
@@ -2586,6 +2591,16 @@ def rule_stats(ctx: Ctx):
 def rule_text_unmodified(ctx: Ctx, rid="C08.TEXT-UNMODIFIED"):
     """The text handed to the lexer is the caller's text itself: parse_source passes its parameter
     to tokenize() and recompile passes its parameter to parse_source, with no rewriting in between."""
+    from . import parserules as PS
+    from . import liferules as LF
+    life = LF.lifecycle(ctx)
+    if not PS.parse_semantics(ctx)["undecided"] and not life["undecided"]:
+        PS.decide(ctx, rid, ("text", "result"), ok_text="the lexer receives the caller's text itself and the parser receives the lexer's stream")
+        wrong = [t for t in life["facts"].get("parse_args_wrong", [])]
+        ctx.rep.check(not wrong, rid, f"{EV}:ExperimentEvaluator.recompile[parse_source argument]",
+                      "parse_source receives recompile's text unchanged" if not wrong else
+                      f"parse_source receives {wrong[0]}, not the text given to recompile", text="parse_source argument (abstract run)")
+        return
     wf = ctx.mod(WF)
     ps = wf.get_function("parse_source")
     par = ps.args.args[0].arg
